@@ -114,7 +114,7 @@ def show_f(x):
 
 def parse_f(s):
     if s == "nan":
-        return math.nan
+        return float("nan")  # a fresh object every time: `is` must not short-cut ==
     if s == "inf":
         return math.inf
     if s == "-inf":
@@ -516,7 +516,8 @@ def canon(o, ctx):
     for table, tag in ((w.funcs, "fn"), (w.methods, "meth"), (w.builtins, "bfn"), (w.modules, "mod"),
                        (w.arrays, "arr"), (w.dicts, "dict")):
         for i, x in table.items():
-            if o is x or (tag == "meth" and o == x):
+            if o is x or (tag == "meth" and getattr(o, "__self__", None) is x.__self__
+                          and getattr(o, "__func__", None) is x.__func__):
                 return [tag, str(i)]
     if t is ctx.classes[9]:
         a = o.adaptee
@@ -569,7 +570,8 @@ def build_trait(t, ctx):
     if h == "Base":
         s = t[1]
         if isinstance(s, str):
-            return getattr(T, "Base" + s)()
+            import traits.trait_types as TT
+            return getattr(TT, "Base" + s)()
         base = {"RangeF": T.BaseRange, "RangeI": T.BaseRange, "Enum": T.BaseEnum,
                 "Instance": T.BaseInstance, "Callable": T.BaseCallable}[s[0]]
         return _build_with(s, ctx, base)
@@ -650,7 +652,13 @@ def _inner(t, ctx):
 
 
 def _handler(t, ctx):
+    """A member of TraitCompound([...]): handlers as they are; Either has no
+    handler interface of its own, its handler is the TraitCompound it builds
+    (what _TraitMaker.do_list substitutes)."""
+    import traits.api as T
     o = build_trait(t, ctx)
+    if isinstance(o, T.Either):
+        return o.as_ctrait().handler
     return o
 
 
@@ -737,7 +745,7 @@ def cast_types(t, acc):
         return acc
     h = t[0]
     if h in ("CoerceH", "CastH"):
-        if isinstance(t[1], str):
+        if isinstance(t[1], str) and t[1] in ("int", "float", "complex", "str", "bytes", "bool", "tuple", "list"):
             acc.add(t[1])
     elif h == "String":
         acc.add("str")
@@ -800,6 +808,8 @@ def env_for(tts, vals, self_cid=0):
             for tn in sorted(types_):
                 tp = ctx.w.types[tn]
                 out, r, _ = show_outcome(lambda: tp(o), ctx)
+                if "(unk" in out:
+                    continue  # not expressible: the model answers `exc Other` if it ever asks
                 parts.append("(cast %s %s %s)" % (tn, show_sexp(s), out))
                 if tn == "str" and r is not None and type(r) is str:
                     strs.add(_ADDR.sub("0xX", r))
